@@ -473,6 +473,36 @@ def run(chk):
         if r[0] != "ok" or r[1] != want:
             chk.violate("a dotted path that starts with the name of a built-in does not denote the declared symbol", {"program": t}, "ok " + want, il[:300])
     chk.traces += len(bops)
+    # ---- a constant declaration is no label: in a bank with `labelalign` it pads nothing, wherever it stands (F57, repaired)
+    la = []
+    for _ in range(400 if thorough else 60):
+        al = rng.choice([16, 32, 64])
+        items = []
+        for i in range(rng.randrange(3, 8)):
+            items.append(rng.choice(["    #d8 %d" % rng.randrange(256), "    #d16 %d" % rng.randrange(65536), "g%d:" % i, "    emit g0"]))
+        if not any(x == "g0:" for x in items):
+            items.insert(0, "g0:")
+        head = HEAD + "#bankdef b { #bits 8, #addr 0, #size 0x400, #outp 0, #labelalign %d }\n" % al
+        base = head + "\n".join(items) + "\n"
+        k = rng.randrange(len(items) + 1)
+        withc = head + "\n".join(items[:k] + ["K = %d" % rng.randrange(100)] + items[k:]) + "\n"
+        la.append((base, withc))
+    lops = []
+    for x, y in la:
+        lops += [fw.asm_op([("main.asm", x)]), fw.asm_op([("main.asm", y)])]
+    limpl = fw.run_oracle_resilient(lops, "c15l")
+    lmodel = fw.run_model(lops, "c15l", timeout=3000)
+    for i, (x, y) in enumerate(la):
+        chk.evaluations += 2
+        ra, rb = fw.asm_line(limpl[2 * i]), fw.asm_line(limpl[2 * i + 1])
+        for il, m, t in ((ra, lmodel[2 * i], x), (rb, lmodel[2 * i + 1], y)):
+            if il != m:
+                chk.disagree(t[-400:], m[:250], il[:250])
+        pa, pb = parse(ra), parse(rb)
+        chk.count("labelalign_constant_" + pa[0])
+        if pa[0] != pb[0] or (pa[0] == "ok" and pa[1] != pb[1]):
+            chk.violate("declaring an address-free constant changes the bytes (it is padded like a label)", {"program": y, "without": x}, ra[:200], rb[:200])
+    chk.traces += len(lops)
     # ---- nested declarations inside taken #if arms vs the flattened program
     sc = [gen_if_scoped(rng) for _ in range(2000 if thorough else 250)]
     sops = []
